@@ -46,6 +46,16 @@ def run(ctx):
             t.mkdir(sub)
             t.add_file(sub + "/clean.gz", fc.gz(5))
             t.add_file(sub + "/clean.a", fc.ar([("x.o/", 5, 0, 0, 100644, b"ab")]))
+            # files of the other formats that need nothing: bytecode of interpreters the pyc handler leaves alone, a page without stamp, an archive of old members
+            k = i % 4
+            if k == 0:
+                t.add_file(sub + "/py27.pyc", samples.old_pyc(62211))
+            elif k == 1:
+                t.add_file(sub + "/py33.pyc", samples.old_pyc(3230))
+            elif k == 2:
+                t.add_file(sub + "/plain.html", b"<html><head><title>t</title></head>\n<body>text</body></html>\n")
+            else:
+                t.add_file(sub + "/old.zip", samples.mixed_zip(samples.EPOCH - 10 ** 7), mtime_ns=(samples.EPOCH - 1000) * 10 ** 9)
             if has_err:
                 # files a handler fails on, for different reasons: all count as errors, none as unsupported
                 k = (i // 4) % 3
@@ -66,7 +76,11 @@ def run(ctx):
                     t.add_file(sub + "/oversize.a", b"!<arch>\n" + b"x.o/            0           0     0     100644  4294967295`\nabcd")   # member size that cannot be padded
                 else:
                     t.add_file(sub + "/beyond.zip", samples.zip_member_beyond_eof())                 # member data said to extend past the end of the file
-            if has_mod:
+            if has_mod and (has_err + has_uns + par) % 2 == 0 and not linked:
+                # the only modifiable file is an archive already in the tool's own layout, whose file date is old and whose last member
+                # needs nothing: only the time stamps of members in the middle make it modifiable
+                t.add_file(sub + "/mixed.zip", samples.canonical_mixed_zip(), mtime_ns=(samples.EPOCH - 1000) * 10 ** 9)
+            elif has_mod:
                 t.add_file(sub + "/dirty.gz", fc.gz(1700000000))
                 t.add_file(sub + "/dirty.a", fc.ar([("x.o/", 1700000000, 7, 8, 100644, b"abc")]))
                 if linked:
